@@ -9,13 +9,18 @@
      len   length of the segment, -1 when unknown
      ends  the set of the one or two segment ENDS the dovetail joins; an end
            is <<name, "L"|"R">>; a hairpin joins an end to itself (one end)
-     ov    overlap length (match-only CIGAR kM -> k); -1 stands for `*`
+     ov    the overlap, direction-free: the set {cg, Complement(cg)} of the
+           CIGAR as written from one side and from the other (Cigar.tla; a
+           CIGAR is a sequence of [n, c]); {<<>>} stands for `*`.
+   The overlap LENGTH is the number of bases the CIGAR consumes (RefLen =
+   QueryLen for the operations M, = and X, which consume both sequences --
+   SAM specification, section 1.4.6); an unspecified overlap has length 0.
 
    An ORIENTED segment is <<name, exit end>>: <<s,"R">> is s read forwards
    (entered through L, left through R), <<s,"L">> is s reverse-complemented.
    A CHAIN is a sequence of oriented segments in which each member is joined
    to the next by a dovetail that is the only dovetail on both joined ends.  *)
-EXTENDS Naturals, Integers, Sequences, FiniteSets, Util
+EXTENDS Naturals, Integers, Sequences, FiniteSets, Util, Cigar
 
 OtherEnd(t) == IF t = "L" THEN "R" ELSE "L"
 \* the end through which an oriented segment is entered / left
@@ -93,8 +98,21 @@ Drop(s, k) == IF k >= Len(s) THEN <<>> ELSE SubSeq(s, k + 1, Len(s))
 OrientedSeq(G, x) == IF x[2] = "R" THEN Seg(G, x[1]).seq ELSE RC(Seg(G, x[1]).seq)
 \* the dovetail between consecutive members x, y of a chain
 JoinLink(G, x, y) == CHOOSE i \in LkIdx(G) : G.links[i].ends = {ExitOf(x), EntryOf(y)}
+\* overlaps
+OvKey(cg) == {cg, Complement(cg)}
+OvStar == {<<>>}
+\* every operation consumes both sequences (M: match or mismatch, =: match, X: mismatch)
+ConsumesBoth(cg) == \A i \in DOMAIN cg : cg[i].c \in {"M", "=", "X"}
+HasMismatchOp(ov) == \E cg \in ov : \E i \in DOMAIN cg : cg[i].c = "X"
+\* number of bases of the successor that lie inside the overlap: all operations count
+OvLen(ov) == RefLen(CHOOSE cg \in ov : TRUE)
 \* overlap length by which y is trimmed (an unspecified overlap trims nothing)
-Cut(G, x, y) == LET k == G.links[JoinLink(G, x, y)].ov IN IF k < 0 THEN 0 ELSE k
+Cut(G, x, y) == OvLen(G.links[JoinLink(G, x, y)].ov)
+\* the chain has a join whose CIGAR contains the mismatch operation X: whether such an
+\* overlap is "match-only" is not settled by the documents (SAM: X consumes both sequences
+\* like M; gfapy's documentation: "all operations are M/="), so merging such a chain
+\* (trimmed by the full length) and refusing it are both accepted
+HasMismatchJoin(G, c) == \E i \in 1..(Len(c) - 1) : HasMismatchOp(G.links[JoinLink(G, c[i], c[i + 1])].ov)
 
 RECURSIVE SpellFrom(_, _, _)
 SpellFrom(G, c, i) ==
@@ -200,6 +218,12 @@ FlipLaw(G) ==
      /\ Seg(b, "m").len = Seg(a, "m").len
      /\ BagOf([k \in DOMAIN a.links |-> [ends |-> {Mirror(e) : e \in a.links[k].ends}, ov |-> a.links[k].ov]])
           = LinkBag(b)
+\* the overlap length does not depend on the side from which the CIGAR is written
+OvLenWellDefined(G) ==
+  \A i \in LkIdx(G) : \A cg \in G.links[i].ov :
+     ConsumesBoth(cg) => /\ RefLen(cg) = QueryLen(cg)
+                         /\ RefLen(cg) = OvLen(G.links[i].ov)
+                         /\ RefLen(cg) = SumLen(cg, {"M", "=", "X"})
 \* number of dovetails: only the internal joins disappear
 LinkCount(G) == \A c \in Chains(G) : Len(Merge(G, c, FALSE).links) = Len(G.links) - (Len(c) - 1)
 =============================================================================
